@@ -186,6 +186,9 @@ func TestVerifC11bFilter(t *testing.T) {
 		} else {
 			kindName = vfC11HeavyKinds[ki-len(vfC11AllKinds)]
 		}
+		if k := os.Getenv("VF_C11_KIND"); k != "" { // development aid, never set by the driver
+			kindName = k
+		}
 		kind := filters.GetKind(kindName)
 		mqtt := vfIsMQTTKind(kindName)
 
@@ -311,188 +314,196 @@ func TestVerifC11bFilter(t *testing.T) {
 		for _, r := range append(append([]vfC11Req{}, oldSeq...), newR...) {
 			dk += "|" + r.any.Class()
 		}
-		oldExercised := 0
-		finish := func() {
-			vf.Case(oldExercised > 0, dk, func() interface{} {
-				return map[string]interface{}{"kind": kindName, "mode": mode, "old": text0, "new": text1,
-					"old_generation_requests_after_inherit": oldExercised, "new_generation_requests": len(newR)}
-			})
-		}
-		panicKey := func(gen, when string, c vfC11CallResult) string {
-			_ = when
-			return vfC11PanicKey(kindName, gen, c)
-		}
 		hung := func(what string) {
 			rt.Fatalf("VF-INCONCLUSIVE %s did not return within %s\n%s", what, vfC11HangLimit, describe())
 		}
 
-		f0, err := vfC11NewFilter(env, kind, text0)
-		if err != nil {
-			rt.Fatalf("VF-INCONCLUSIVE the same YAML was accepted and then rejected: %v", err)
+		// scenario runs the whole update once on brand-new instances and returns the first finding.
+		// count: bookkeeping (classes, non-triviality) only for the first run of a case.
+		oldExercised := 0
+		scenario := func(count bool) *vfC11Finding {
+			class := func(names ...string) {
+				if count {
+					vf.Class(names...)
+				}
+			}
+			panicFinding := func(gen string, c vfC11CallResult, format string, args ...interface{}) *vfC11Finding {
+				return &vfC11Finding{key: vfC11PanicKey(kindName, gen, c), msg: fmt.Sprintf(format, args...)}
+			}
+			f0, err := vfC11NewFilter(env, kind, text0)
+			if err != nil {
+				rt.Fatalf("VF-INCONCLUSIVE the same YAML was accepted and then rejected: %v", err)
+			}
+			if c := vfC11Call(func() { f0.Init() }); c.panicked || c.hung {
+				// the twin initialised: not deterministic enough to attribute anything
+				return &vfC11Finding{discard: "Init-second-time"}
+			}
+			f0closed := false
+			var f1 filters.Filter
+			defer func() {
+				if !f0closed {
+					vfC11Call(func() { f0.Close() })
+				}
+				if f1 != nil {
+					vfC11Call(func() { f1.Close() })
+				}
+			}()
+			nd0, nd1 := nondet0, nondet1
+			idx := 0
+			for _, r := range pre {
+				o := vfC11Send(env, f0, r)
+				if o.call.hung {
+					hung("Handle before the update")
+				}
+				if o.call.panicked {
+					return &vfC11Finding{discard: "Handle-second-time"}
+				}
+				if nd0 == "" && !o.skipped {
+					if _, d := vfC11Diff(o.obs, ref0[idx].obs); d {
+						nd0 = "observed:before-update-differs-from-twin"
+						class("twins-disagree kind=" + kindName)
+					}
+				}
+				idx++
+			}
+
+			f1, err = vfC11NewFilter(env, kind, text1)
+			if err != nil {
+				rt.Fatalf("VF-INCONCLUSIVE the same YAML was accepted and then rejected: %v", err)
+			}
+			if c := vfC11Call(func() { f1.Inherit(f0) }); c.panicked || c.hung {
+				if c.hung {
+					hung("Inherit")
+				}
+				f1 = nil
+				return panicFinding("new", c, "Inherit panicked although both generations work on their own: %s\n%s", c.text, describe())
+			}
+			class("inherit-done")
+
+			checkOld := func(when string, r vfC11Req, ref vfC11Outcome, closed bool) *vfC11Finding {
+				o := vfC11Send(env, f0, r)
+				if o.skipped {
+					return nil
+				}
+				if o.call.hung {
+					hung("old generation Handle " + when)
+				}
+				if count {
+					oldExercised++
+				}
+				if o.call.panicked {
+					return panicFinding("old", o.call, "a request on the old generation panicked %s: %s\nrequest: %s\n%s", when, o.call.text, r.any.String(), describe())
+				}
+				if nd0 != "" {
+					class("old-" + when + ": no-panic-only")
+					return nil
+				}
+				field, differs := vfC11Diff(o.obs, ref.obs)
+				if !differs {
+					class("old-" + when + ": same-as-untouched-twin")
+					return nil
+				}
+				if closed && vfC11CleanError(o.obs) {
+					class("ambiguous-old-generation-clean-error-after-close")
+					return nil
+				}
+				return &vfC11Finding{differential: true,
+					key: fmt.Sprintf("kind=%s old-generation-changed-behaviour when=%s field=%s", kindName, when, vfC11FieldClass(field)),
+					msg: fmt.Sprintf("the old generation answers differently %s than an instance of the same spec that never saw an update (field %s)\nrequest: %s\n got: %s\nwant: %s\n%s",
+						when, field, r.any.String(), o.obs, ref.obs, describe())}
+			}
+			checkNew := func() *vfC11Finding {
+				for i, r := range newR {
+					o := vfC11Send(env, f1, r)
+					if o.skipped {
+						continue
+					}
+					if o.call.hung {
+						hung("new generation Handle")
+					}
+					if o.call.panicked {
+						return panicFinding("new", o.call, "a request on the new generation panicked: %s\nrequest: %s\n%s", o.call.text, r.any.String(), describe())
+					}
+					if c := vfC11Call(func() { _ = f1.Status() }); c.panicked {
+						return panicFinding("new", c, "Status of the new generation panicked: %s\n%s", c.text, describe())
+					}
+					if nd1 != "" {
+						class("new: no-panic-only")
+						continue
+					}
+					field, differs := vfC11Diff(o.obs, ref1[i].obs)
+					if !differs {
+						class("new: same-as-fresh-twin")
+						continue
+					}
+					return &vfC11Finding{differential: true,
+						key: fmt.Sprintf("kind=%s new-generation-differs-from-fresh-instance mode=%s field=%s", kindName, mode, vfC11FieldClass(field)),
+						msg: fmt.Sprintf("after the update request new[%d] is answered differently than by a freshly initialised filter of the new spec (field %s)\nrequest: %s\n got: %s\nwant: %s\n%s",
+							i, field, r.any.String(), o.obs, ref1[i].obs, describe())}
+				}
+				return nil
+			}
+
+			if newFirst {
+				if f := checkNew(); f != nil {
+					return f
+				}
+			}
+			if f := checkOld("after-inherit", oldA[0], ref0[idx], false); f != nil {
+				return f
+			}
+			idx++
+			if c := vfC11Call(func() { _ = f0.Status() }); c.panicked {
+				return panicFinding("old", c, "Status of the old generation panicked after Inherit: %s\n%s", c.text, describe())
+			}
+			c := vfC11Call(func() { f0.Close() })
+			f0closed = true
+			if c.hung {
+				hung("Close of the old generation")
+			}
+			if c.panicked {
+				return panicFinding("old", c, "closing the old generation after Inherit panicked: %s\n%s", c.text, describe())
+			}
+			if f := checkOld("after-close", oldB[0], ref0[idx], true); f != nil {
+				return f
+			}
+			if !newFirst {
+				if f := checkNew(); f != nil {
+					return f
+				}
+			}
+			c = vfC11Call(func() { f1.Close() })
+			f1 = nil
+			if c.hung {
+				hung("Close of the new generation")
+			}
+			if c.panicked {
+				return panicFinding("new", c, "closing the new generation panicked: %s\n%s", c.text, describe())
+			}
+			return nil
 		}
-		if c := vfC11Call(func() { f0.Init() }); c.panicked || c.hung {
-			// the twin initialised: not deterministic enough to attribute anything
-			vf.Class("discarded-single-generation-panic", "discarded-single-generation-panic kind="+kindName+" spec=s0 phase=Init-second-time")
+
+		fnd := scenario(true)
+		if fnd != nil && fnd.discard != "" {
+			vf.Class("discarded-single-generation-panic", "discarded-single-generation-panic kind="+kindName+" spec=s0 phase="+fnd.discard)
 			vf.Case(false, "", nil)
 			return
 		}
-		f0closed := false
-		var f1 filters.Filter
-		defer func() {
-			if !f0closed {
-				vfC11Call(func() { f0.Close() })
-			}
-			if f1 != nil {
-				vfC11Call(func() { f1.Close() })
-			}
-		}()
-		idx := 0
-		for _, r := range pre {
-			o := vfC11Send(env, f0, r)
-			if o.call.hung {
-				hung("Handle before the update")
-			}
-			if o.call.panicked {
-				vf.Class("discarded-single-generation-panic", "discarded-single-generation-panic kind="+kindName+" spec=s0 phase=Handle-second-time")
-				vf.Case(false, "", nil)
-				return
-			}
-			if nondet0 == "" && !o.skipped {
-				if _, d := vfC11Diff(o.obs, ref0[idx].obs); d {
-					nondet0 = "observed:before-update-differs-from-twin"
-					vf.Class("twins-disagree kind=" + kindName)
-				}
-			}
-			idx++
-		}
-
-		f1, err = vfC11NewFilter(env, kind, text1)
-		if err != nil {
-			rt.Fatalf("VF-INCONCLUSIVE the same YAML was accepted and then rejected: %v", err)
-		}
-		if c := vfC11Call(func() { f1.Inherit(f0) }); c.panicked || c.hung {
-			if c.hung {
-				hung("Inherit")
-			}
-			f1 = nil
-			finish()
-			if vfC11Report(vf, rt, panicKey("new", "Inherit", c), "Inherit panicked although both generations work on their own: %s\n%s", c.text, describe()) {
-				return
+		if fnd != nil && fnd.differential {
+			// A difference must be reproducible on brand-new instances: an environmental hiccup (a
+			// refused upstream connection, an etcd timeout on a loaded machine) is not.
+			again := scenario(false)
+			if again == nil || again.key != fnd.key {
+				vf.Class("differential-mismatch-not-reproduced kind=" + kindName)
+				fnd = nil
 			}
 		}
-		vf.Class("inherit-done")
-
-		checkOld := func(when string, r vfC11Req, ref vfC11Outcome, closed bool) bool {
-			o := vfC11Send(env, f0, r)
-			if o.skipped {
-				return true
-			}
-			if o.call.hung {
-				hung("old generation Handle " + when)
-			}
-			oldExercised++
-			if o.call.panicked {
-				finish()
-				vfC11Report(vf, rt, panicKey("old", when, o.call), "a request on the old generation panicked %s: %s\nrequest: %s\n%s", when, o.call.text, r.any.String(), describe())
-				return false
-			}
-			if nondet0 != "" {
-				vf.Class("old-" + when + ": no-panic-only")
-				return true
-			}
-			field, differs := vfC11Diff(o.obs, ref.obs)
-			if !differs {
-				vf.Class("old-" + when + ": same-as-untouched-twin")
-				return true
-			}
-			if closed && vfC11CleanError(o.obs) {
-				vf.Class("ambiguous-old-generation-clean-error-after-close")
-				return true
-			}
-			finish()
-			vfC11Report(vf, rt, fmt.Sprintf("kind=%s old-generation-changed-behaviour when=%s field=%s", kindName, when, vfC11FieldClass(field)),
-				"the old generation answers differently %s than an instance of the same spec that never saw an update (field %s)\nrequest: %s\n got: %s\nwant: %s\n%s",
-				when, field, r.any.String(), o.obs, ref.obs, describe())
-			return false
+		vf.Case(oldExercised > 0, dk, func() interface{} {
+			return map[string]interface{}{"kind": kindName, "mode": mode, "old": text0, "new": text1,
+				"old_generation_requests_after_inherit": oldExercised, "new_generation_requests": len(newR)}
+		})
+		if fnd != nil {
+			vfC11Report(vf, rt, fnd.key, "%s", fnd.msg)
 		}
-		checkNew := func() bool {
-			for i, r := range newR {
-				o := vfC11Send(env, f1, r)
-				if o.skipped {
-					continue
-				}
-				if o.call.hung {
-					hung("new generation Handle")
-				}
-				if o.call.panicked {
-					finish()
-					vfC11Report(vf, rt, panicKey("new", "after-inherit", o.call), "a request on the new generation panicked: %s\nrequest: %s\n%s", o.call.text, r.any.String(), describe())
-					return false
-				}
-				if c := vfC11Call(func() { _ = f1.Status() }); c.panicked {
-					finish()
-					vfC11Report(vf, rt, panicKey("new", "Status", c), "Status of the new generation panicked: %s\n%s", c.text, describe())
-					return false
-				}
-				if nondet1 != "" {
-					vf.Class("new: no-panic-only")
-					continue
-				}
-				field, differs := vfC11Diff(o.obs, ref1[i].obs)
-				if !differs {
-					vf.Class("new: same-as-fresh-twin")
-					continue
-				}
-				finish()
-				vfC11Report(vf, rt, fmt.Sprintf("kind=%s new-generation-differs-from-fresh-instance mode=%s field=%s", kindName, mode, vfC11FieldClass(field)),
-					"after the update request new[%d] is answered differently than by a freshly initialised filter of the new spec (field %s)\nrequest: %s\n got: %s\nwant: %s\n%s",
-					i, field, r.any.String(), o.obs, ref1[i].obs, describe())
-				return false
-			}
-			return true
-		}
-
-		if newFirst && !checkNew() {
-			return
-		}
-		if !checkOld("after-inherit", oldA[0], ref0[idx], false) {
-			return
-		}
-		idx++
-		if c := vfC11Call(func() { _ = f0.Status() }); c.panicked {
-			finish()
-			if vfC11Report(vf, rt, panicKey("old", "Status-after-inherit", c), "Status of the old generation panicked after Inherit: %s\n%s", c.text, describe()) {
-				return
-			}
-		}
-		c := vfC11Call(func() { f0.Close() })
-		f0closed = true
-		if c.hung {
-			hung("Close of the old generation")
-		}
-		if c.panicked {
-			finish()
-			vfC11Report(vf, rt, panicKey("old", "Close", c), "closing the old generation after Inherit panicked: %s\n%s", c.text, describe())
-			return
-		}
-		if !checkOld("after-close", oldB[0], ref0[idx], true) {
-			return
-		}
-		if !newFirst && !checkNew() {
-			return
-		}
-		c = vfC11Call(func() { f1.Close() })
-		f1done := f1
-		f1 = nil
-		_ = f1done
-		if c.hung {
-			hung("Close of the new generation")
-		}
-		if c.panicked {
-			finish()
-			vfC11Report(vf, rt, panicKey("new", "Close", c), "closing the new generation panicked: %s\n%s", c.text, describe())
-			return
-		}
-		finish()
 	})
 }
